@@ -44,6 +44,8 @@ def configs(tier):
     cfgs.append(dict(group='textbook_variance_is_refuted'))
     for cls in ('IncrementalPFI', 'IncrementalSage'):
         cfgs.append(dict(group='explainer_offset', cls=cls, _cost=100))
+        cfgs.append(dict(group='explainer_offset', cls=cls, override=True, _cost=100))     # n_inner_samples=2 for the call only
+    cfgs.append(dict(group='explainer_offset', cls='IncrementalSage', bigger=True, _cost=100))
     return cfgs
 
 
@@ -84,10 +86,19 @@ def _tracker_replay(env, cfg):
                       detail=f"binary64 run: error / (4 u max|v| / alpha) = {float(worst):.3g}")
             return
         worst_mean, worst_var, const_bad = Fraction(0), 0.0, None
-        for B in (0.0, 1e4, 2.0 ** 20, 1e8):
-            for n in (3, 50, 400):
+        def streams():
+            for B in (0.0, 1e4, 2.0 ** 20, 1e8):
+                for n in (3, 50, 400):
+                    base = [B + rng.random() for _ in range(n)]
+                    yield base                                              # random order
+                    yield sorted(base)                                      # sorted
+                    yield [v if i % 2 else 2 * B + 1 - v for i, v in enumerate(base)]       # alternating around the centre
+                    yield [B + 0.5] * (n // 2) + [B + 0.5 + rng.random() for _ in range(n - n // 2)]   # constant, then jump / noise
+                    yield [0.0] * (n // 2) + base[n // 2:]                  # leading zeros (value equal to a fresh tracker's mean)
+        for vals in streams():
+            for _once in (0,):
+                n = len(vals)
                 t = WelfordTracker()
-                vals = [B + rng.random() for _ in range(n)]
                 for v in vals:
                     t.update(v)
                 fr = [Fraction(v) for v in vals]
@@ -213,7 +224,7 @@ def _textbook_variance_is_refuted(env, cfg):
 K_EXPLAINER = 16      # |importance_hat - importance| <= K * u * max|contribution| after two explained observations
 
 
-def _mk_explainer(cls_name, losses, dynamic=False, alpha=None, keep_variance=False):
+def _mk_explainer(cls_name, losses, dynamic=False, alpha=None, keep_variance=False, bigger=False):
     from ixai.explainer import IncrementalPFI, IncrementalSage
     from ixai.imputer import DefaultImputer
     from ixai.storage import BatchStorage
@@ -226,6 +237,8 @@ def _mk_explainer(cls_name, losses, dynamic=False, alpha=None, keep_variance=Fal
         return next(it)
     cls = IncrementalPFI if cls_name == 'IncrementalPFI' else IncrementalSage
     kw = {} if alpha is None else {'smoothing_alpha': alpha}
+    if bigger:
+        kw['loss_bigger_is_better'] = True
     ex = cls(model, loss, ['f'], storage=BatchStorage(), imputer=DefaultImputer(model, {'f': 0.0}), n_inner_samples=1,
              dynamic_setting=dynamic, **kw)
     if not keep_variance:
@@ -246,50 +259,89 @@ def _explainer_offset(env, cfg):
     name = cfg['cls']
     B = env.real('B')
     env.assume(B >= 1)
-    n_loss = 2 if name == 'IncrementalPFI' else 3
+    over, bigger = cfg.get('override', False), cfg.get('bigger', False)
+    call_kw = {'n_inner_samples': 2} if over else {}
+    # loss invocations per explained observation - PFI: original, one per inner sample; SAGE: model, marginal, coalition
+    n_loss = (3 if over else 2) if name == 'IncrementalPFI' else 3
     losses, smalls = [], []
+    normalised = over and name == 'IncrementalPFI'
+    if normalised:
+        B = 0       # two inner samples: the error is relative to the loss values; magnitudes normalised to max|loss| = 1
     for t in range(2):
         for j in range(n_loss):
             s = env.real(f"s{t}_{j}")
             env.assume(within(s, 1))
             smalls.append(s)
             losses.append(FPSym((B + s).t))
-    ex = guarded(env, 'ctor', _mk_explainer, name, losses)
+    ex = guarded(env, 'ctor', _mk_explainer, name, losses, False, None, False, bigger)
     guarded(env, 'explain_one', ex.explain_one, {'f': 1.0}, 0.0)         # seeds the storage only
     contribs = []
     for t in range(2):
-        guarded(env, 'explain_one', ex.explain_one, {'f': 1.0}, 0.0)
+        guarded(env, 'explain_one', ex.explain_one, {'f': 1.0}, 0.0, **call_kw)
         s = smalls[t * n_loss:(t + 1) * n_loss]
-        contribs.append(s[1] - s[0] if name == 'IncrementalPFI' else s[1] - s[2])
+        if name == 'IncrementalPFI':
+            contribs.append(((s[1] + s[2]) / 2 if over else s[1]) - s[0])
+        else:
+            contribs.append(s[1] - s[2])
     exact = (contribs[0] + contribs[1]) / 2
     got = _val(ex.importance_values['f'])
-    env.claim('importance_error_independent_of_the_loss_offset', within(got - exact, K_EXPLAINER * U * 2),
-              detail='|importance_hat - importance| <= 16 u max|contribution| for every common offset B of the loss values')
+    if over and name == 'IncrementalPFI':
+        # averaging two inner losses of magnitude B rounds relative to B: the bound is relative to the loss values here
+        env.claim('importance_error_relative_to_the_loss_values', within(got - exact, K_EXPLAINER * U),
+                  detail='|importance_hat - importance| <= 16 u max|loss| with two inner samples (loss values normalised to [-1, 1])')
+    else:
+        env.claim('importance_error_independent_of_the_loss_offset', within(got - exact, K_EXPLAINER * U * 2),
+                  detail='|importance_hat - importance| <= 16 u max|contribution| for every common offset B of the loss values')
     env.canary('not_exact', eq(got, exact))
+    if name == 'IncrementalSage':
+        # the reported losses themselves have the magnitude of the loss values: error bounded relative to B + 2
+        dirn = 1 if bigger else 0
+        for label, j in (('model_loss', 0), ('marginal_loss', 1)):
+            ex_l = B + (smalls[j] + smalls[n_loss + j]) / 2 + dirn
+            env.claim(f"{label}_close_to_exact", within(_val(getattr(ex, label)) - ex_l, 16 * U * (B + 2)))
+        ex_e = (smalls[1] + smalls[n_loss + 1]) / 2 - (smalls[0] + smalls[n_loss]) / 2
+        if bigger:        # (a 40 s query: asked once, in the configuration where the reported losses carry an offset)
+            env.claim('explained_loss_close_to_exact', within(_val(ex.explained_loss) - ex_e, 32 * U * (B + 2)))
 
 
 def _explainer_offset_replay(env, cfg):
     """concrete binary64 experiment: the same two explained observations with a large common loss offset"""
     import random as _r
     name = cfg['cls']
+    over, bigger = cfg.get('override', False), cfg.get('bigger', False)
+    call_kw = {'n_inner_samples': 2} if over else {}
     rng = _r.Random(3)
-    worst = 0.0
-    for B in (2.0 ** 30, 1e8, 2.0 ** 40):
-        n_loss = 2 if name == 'IncrementalPFI' else 3
+    worst, worst_loss = 0.0, 0.0
+    for B in (2.0 ** 30, 1e8, 2.0 ** 40, 4.0):
+        n_loss = (3 if over else 2) if name == 'IncrementalPFI' else 3
         losses = [B + rng.random() for _ in range(2 * n_loss)]
-        ex = _mk_explainer(name, list(losses))
+        ex = _mk_explainer(name, list(losses), False, None, False, bigger)
         ex.explain_one({'f': 1.0}, 0.0)
-        cs = []
+        cs, Ls = [], []
         for t in range(2):
-            ex.explain_one({'f': 1.0}, 0.0)
+            ex.explain_one({'f': 1.0}, 0.0, **call_kw)
             L = [Fraction(v) for v in losses[t * n_loss:(t + 1) * n_loss]]
-            cs.append(L[1] - L[0] if name == 'IncrementalPFI' else L[1] - L[2])
+            Ls.append(L)
+            if name == 'IncrementalPFI':
+                cs.append(((L[1] + L[2]) / 2 if over else L[1]) - L[0])
+            else:
+                cs.append(L[1] - L[2])
         exact = (cs[0] + cs[1]) / 2
         err = abs(Fraction(float(ex.importance_values['f'])) - exact)
         bound = K_EXPLAINER * U * 2 * max(abs(c) for c in cs + [Fraction(1)])
+        if over and name == 'IncrementalPFI':
+            bound = K_EXPLAINER * U * Fraction(B + 2)
         worst = max(worst, float(err / bound))
+        if name == 'IncrementalSage':
+            dirn = 1 if bigger else 0
+            model = (Ls[0][0] + Ls[1][0]) / 2 + dirn
+            marg = (Ls[0][1] + Ls[1][1]) / 2 + dirn
+            for got, want, k in ((ex.model_loss, model, 16), (ex.marginal_loss, marg, 16), (ex.explained_loss, marg - model, 32)):
+                worst_loss = max(worst_loss, float(abs(Fraction(float(got)) - want) / (k * U * Fraction(B + 2))))
     env.claim('importance_error_independent_of_the_loss_offset', worst <= 1.0,
               detail=f"binary64 run with loss offsets up to 2^40: error / allowed bound = {worst:.3g}")
+    env.claim('reported_losses_close_to_exact', worst_loss <= 1.0,
+              detail=f"binary64 run: error of model / marginal / explained loss over the allowed bound = {worst_loss:.3g}")
 
 
 META['explanation'] += ' Explainer level: two explained observations of IncrementalPFI / IncrementalSage with a symbolic common loss offset B: error bound independent of B. Objects with state the step harness does not inject are refused (exit 2).'
